@@ -46,6 +46,13 @@ func decodeParams(o *Obligation) map[string]interface{} {
 		v, _ := smtInt(o.Model[t])
 		return v
 	}
+	if o.enc != nil && len(o.enc.ghostModel) > 0 {
+		g := map[string]string{}
+		for _, gm := range o.enc.ghostModel {
+			g[gm[0]] = val(gm[1])
+		}
+		ps["$ghost"] = g
+	}
 	for _, p := range o.Params {
 		name := p.Name
 		switch p.Kind {
@@ -88,17 +95,28 @@ func decodeParams(o *Obligation) map[string]interface{} {
 }
 
 func harnessFor(fn string) (file, pkgDir string) {
-	// fn like "executor.trimResultsToRange" or "utils/io.(*T).M"
-	i := strings.LastIndex(fn, ".")
-	if strings.Contains(fn, "(") {
-		i = strings.Index(fn, ".(")
+	// fn like "executor.trimResultsToRange", "executor/wal.ReadStatus" or "(*executor.WALFileType).readTGData"
+	var pkg, name string
+	if strings.HasPrefix(fn, "(") {
+		end := strings.Index(fn, ")")
+		if end < 0 {
+			return "", ""
+		}
+		inner := strings.TrimPrefix(fn[1:end], "*")
+		method := strings.TrimPrefix(fn[end+1:], ".")
+		k := strings.LastIndex(inner, ".")
+		if k < 0 {
+			return "", ""
+		}
+		pkg, name = inner[:k], inner[k+1:]+"."+method
+	} else {
+		k := strings.LastIndex(fn, ".")
+		if k < 0 {
+			return "", ""
+		}
+		pkg, name = fn[:k], fn[k+1:]
 	}
-	if i < 0 {
-		return "", ""
-	}
-	pkg := fn[:i]
-	name := sanitize(fn[i+1:])
-	f := filepath.Join(*verifDir, "harness", pkg, name+"_replay_test.go")
+	f := filepath.Join(*verifDir, "harness", pkg, sanitize(name)+"_replay_test.go")
 	if _, err := os.Stat(f); err == nil {
 		return f, pkg
 	}
